@@ -81,6 +81,32 @@ func (r *Run) Enabled() []wx.Op {
 					}
 				}
 			}
+			if ill && f&FBuilder != 0 && f&FVal != 0 && len(set) > 0 {
+				// the same mistakes when the entity is created from component values (a separate code path)
+				if rel < 0 {
+					add(OpBuilderNew, int8(si), int8(set[0]), -1, 1) // relation argument is not a relation component
+				}
+				for ci, k := range c.Comps {
+					if k.IsRel() && ci != rel {
+						add(OpBuilderNew, int8(si), int8(ci), -1, 1) // a relation component the entity lacks / another one than it has
+						break
+					}
+				}
+				if rel >= 0 {
+					for ci, k := range c.Comps {
+						if !k.IsRel() {
+							in := false
+							for _, x := range set {
+								in = in || x == ci
+							}
+							if in {
+								add(OpBuilderNew, int8(si), int8(ci), -1, 1) // a plain component of the set given as relation
+								break
+							}
+						}
+					}
+				}
+			}
 			if ill && f&FBuilder != 0 && rel < 0 && len(set) > 0 {
 				// target with a non-relation component / without relation
 				add(OpBuilderNew, int8(si), int8(set[0]), -1, 0)
